@@ -87,7 +87,7 @@ PRINTER = "grep-printer"
 UNITS = [
     unit("c09_base64_roundtrip", ["C09"], PRINTER, "jsont::verif_kani",
          "jsont::base64_standard on fully symbolic <=4 bytes: RFC 4648 reference decoder recovers exactly the input; length, padding",
-         ["jsont::base64_standard"], timeout=900),
+         ["jsont::base64_standard"], timeout=1500, heavy=True, tier="thorough"),
     unit("c09_data_from_bytes", ["C09"], PRINTER, "jsont::verif_kani",
          "jsont::Data::from_bytes on fully symbolic <=4 bytes: Text iff valid UTF-8 (independent validator), bytes preserved",
          ["jsont::Data::from_bytes"], timeout=900),
@@ -483,8 +483,13 @@ FAMILIES = [
     ShapeFamily("c13_multiline_lookbehind", ["C13"], SEARCHER, CORE_MOD, GEN,
                 "MultiLine::run with look-behind patterns: besides the span table E, every alternative answer E0[p] at a "
                 "resumption point taken as start-of-haystack is enumerated (tables with one match start; plain and inverted+context); the result must follow the whole-input table E",
-                MULTI_FUNCS, heavy=lambda sh: len(sh.hay) >= 4, timeout=1500, rules=multi_rules(2), unwind=lambda sh: 800,
+                MULTI_FUNCS, heavy=lambda sh: len(sh.hay) >= 3, timeout=1500, rules=multi_rules(2), unwind=lambda sh: 800,
                 quick_shapes=["q_one_unterm", "q_one", "m_two_unterm"], thorough_shapes=["q_two"]),
+    ShapeFamily("c13_reader_reuse", ["C13", "C02"], SEARCHER, CORE_MOD, GEN,
+                "Searcher::search_reader in multi-line mode (whole input read into the Searcher's reused buffer, 2-byte reads) run TWICE on one "
+                "Searcher: both runs == model (every span table with <=1 match start enumerated; numbering symbolic)",
+                MULTI_FUNCS + ("Searcher::search_reader", "Searcher::fill_multi_line_buffer_from_reader"), heavy=lambda sh: len(sh.hay) >= 4, timeout=1500,
+                rules=multi_rules(2), unwind=lambda sh: 800, quick_shapes=["q_one", "m_two_unterm"], thorough_shapes=["q_two"]),
     ShapeFamily("c16_multiline_refuse", ["C16"], SEARCHER, CORE_MOD, GEN,
                 "multi-line strategy: sink refuses at every call index k (enumerated) for every span table (<=2 bytes) / every table with one match start, x {contexts (1,1), inverted, passthru}: prefix + exactly one finish",
                 MULTI_FUNCS, heavy=True, timeout=1500, rules=multi_rules(2), unwind=lambda sh: 800,
@@ -609,7 +614,7 @@ def run_kani(group, ctx):
             lanes[key[2]].append(prepare(key, obls))
         both = bool(lanes[False]) and bool(lanes[True])
         J = ctx["jobs"]
-        lane_jobs = {False: (max(2, J - 4) if both else J), True: min(4, J)}
+        lane_jobs = {False: (max(2, J - 5) if both else J), True: min(5, J)}
         done = []
         stop_guard = threading.Event()
 
